@@ -275,26 +275,6 @@ theorem interleaving_indep_rekey {ν} (blob₁ blob₂ : List (Nat × ν)) (hp :
 example : reorderBlob [(7, "b"), (5, "c"), (3, "a")] [3, 5, 7]
     = reorderBlob [(3, "a"), (7, "b"), (5, "c")] [3, 5, 7] := by decide
 
-theorem collect_map_fst {ν} (order : List Nat) (f : Nat → Option ν) (r : List (Nat × ν))
-    (h : collect (order.map (fun c => (f c).map (fun v => (c, v)))) = some r) :
-    r.map (·.1) = order := by
-  induction order generalizing r with
-  | nil =>
-    simp only [List.map_nil, collect, Option.some.injEq] at h
-    subst h; rfl
-  | cons c cs ih =>
-    simp only [List.map_cons] at h
-    cases hf : f c with
-    | none => simp [hf, collect] at h
-    | some v =>
-      simp only [hf, Option.map_some, collect] at h
-      cases hc : collect (cs.map (fun c => (f c).map (fun v => (c, v)))) with
-      | none => simp [hc] at h
-      | some r' =>
-        simp only [hc, Option.map_some, Option.some.injEq] at h
-        subst h
-        simp [ih r' hc]
-
 /-- whatever the workers delivered and in whatever order: if `re_order_blob`
 returns at all, it returns exactly one record per cell of the query file, in
 file order (a missing cell is a `KeyError`, never a silently shorter list) -/
